@@ -874,6 +874,49 @@ def parse_setup_facts():
     return [f"({coq_str(n)}, {'true' if ok else 'false'})" for n, ok in facts]
 
 
+# ------------------------------------------------------------------ strain section loop (C16 / C05)
+
+def parse_section_facts():
+    """the section loop of `StrainSkill::process` that Model/Sections.v transcribes and
+    Proofs/SecTerm.v proves terminating, and every section length in the crate"""
+    lens = []
+    for root, _, files in os.walk(os.path.join(REPO, "src")):
+        for fn in sorted(files):
+            if not fn.endswith(".rs"):
+                continue
+            rel = os.path.relpath(os.path.join(root, fn), REPO)
+            t = strip_test_modules(strip_comments(read(rel)))
+            for m in re.finditer(r"\bconst\s+(SECTION_LENGTH|SECTION_LEN)\s*:\s*(\w+)\s*=\s*([^;]+);", t):
+                v = m.group(3).strip().replace("_", "")
+                mm = re.fullmatch(r"(\d+)(?:\.0+)?", v)
+                lens.append((f"{rel}: {m.group(1)}: {m.group(2)}", int(mm.group(1)) if mm else -1))
+    lens.sort()
+    facts = []
+    mac = norm(strip_comments(read("src/util/macros.rs")))
+    loop = ("let section_length = f64::from(Self::SECTION_LENGTH); "
+            "if curr.idx == 0 { self.strain_skill_current_section_end = "
+            "f64::ceil(curr.start_time / section_length) * section_length; } "
+            "while curr.start_time > self.strain_skill_current_section_end { self.save_current_peak(); "
+            "self.start_new_section_from( self.strain_skill_current_section_end, curr, objects ); "
+            "self.strain_skill_current_section_end += section_length; }")
+    facts.append(("macros.rs: process() sets the first end to ceil(t / L) * L and loops `while t > end { save; new section; end += L }`",
+                  mac.count(loop) == 1))
+    writes = 0
+    for root, _, files in os.walk(os.path.join(REPO, "src")):
+        for fn in files:
+            if fn.endswith(".rs"):
+                t = norm(strip_test_modules(strip_comments(read(os.path.relpath(os.path.join(root, fn), REPO)))))
+                writes += len(re.findall(r"strain_skill_current_section_end\s*(?:[-+*/]?=)(?!=)", t))
+    facts.append(("the section end is written only by those two statements", writes == 2))
+    facts.append(("the section end starts at 0.0", "strain_skill_current_section_end f64 = 0.0," in mac))
+    facts.append(("no skill implements process() by hand (all go through the macro)",
+                  sum(1 for root, _, files in os.walk(os.path.join(REPO, "src")) for fn in files if fn.endswith(".rs")
+                      and re.search(r"fn process<'a>\(", strip_test_modules(strip_comments(
+                          read(os.path.relpath(os.path.join(root, fn), REPO)))))) == 2))
+    return ([f"({coq_str(n)}, {v})" if v >= 0 else f"({coq_str(n)}, (-1))" for n, v in lens],
+            [f"({coq_str(n)}, {'true' if ok else 'false'})" for n, ok in facts])
+
+
 # ------------------------------------------------------------------ bpm comparator (C01)
 
 def parse_bpm_facts():
@@ -905,6 +948,7 @@ def generate():
     bpm_facts = parse_bpm_facts()
     sort_facts = parse_sort_facts()
     setup_facts = parse_setup_facts()
+    section_lengths, section_facts = parse_section_facts()
     score_conv = parse_score_conv()
     perf_conv, osu_perf_fields = parse_perf_conv()
     L = []
@@ -980,6 +1024,9 @@ def generate():
     A("Definition sort_facts : list (string * bool) :=\n  " + coq_list(sort_facts).replace("; (", ";\n   (") + ".")
     A("(* one-shot and gradual calculators start from the same skill state (the s0 of the Coq machines) *)")
     A("Definition setup_facts : list (string * bool) :=\n  " + coq_list(setup_facts).replace("; (", ";\n   (") + ".")
+    A("(* every section length constant of the crate, and the shape of the section loop (Model/Sections.v, Proofs/SecTerm.v) *)")
+    A("Definition section_lengths : list (string * Z) :=\n  " + coq_list(section_lengths).replace("; (", ";\n   (") + "%Z.")
+    A("Definition section_facts : list (string * bool) :=\n  " + coq_list(section_facts).replace("; (", ";\n   (") + ".")
     A("(* the comparator of Beatmap::bpm that Model/Bpm.v transcribes *)")
     A("Definition bpm_facts : list (string * bool) :=\n  " + coq_list(bpm_facts).replace("; (", ";\n   (") + ".")
     A("(* facts the ownership argument of C11 rests on, each checked against the current source *)")
